@@ -24,6 +24,7 @@ import GfsSpec.Grammar
 import GfsProofs.CppLemmas
 import GfsProps.C15
 import GfsProofs.ListOrder
+import GfsProofs.CppScan
 import GfsGen.Facts
 import GfsModel.ExpectedSrc
 
@@ -124,6 +125,75 @@ theorem C19_scan_frameless (st : PadStyle) (path dir base ext : Bytes) (s0 : Seq
     (hp : Seq.parse st path = .ok s0) :
     Cpp.singleSeq st path dir base [] ext = .ok (rebuild st dir base [] [] ext) :=
   cpp_singleSeq_frameless st path dir base ext s0 hdir hext hp
+
+/-- Directory scan, whole. `Cpp.scan` is the port's two-pass `findSequencesOnDisk` (buckets keyed
+    by (basename, ext) with a running minimum width, single files built by the constructor and
+    then forced), `findSequencesOnDisk` the Go one. For a clean directory argument (the port
+    appends a separator, Go cleans the path first), no dangling link, buckets of two or more
+    frames of one digit width, and every other kept name a frame-less file the constructor
+    accepts: both report the same sequences and the same single files — the port lists the single
+    files first, Go last, and neither promises an order. -/
+theorem C19_scan (o : ListOpts) (path : Bytes) (entries : List Entry)
+    (hpath : Cpp.rootOf path = dirPrefix path)
+    (hroot : isSuffixOf ['/'] (dirPrefix path) = true)
+    (hnd : ∀ e ∈ entries, e.kind ≠ .dangling)
+    (hsingle : ∀ e ∈ entries, CppScan.kept e = true →
+        (o.hidden = true ∨ isPrefixOf ['.'] e.name = false) → CppScan.SingleOk o (dirPrefix path) e.name)
+    (hdom : CppScan.BucketsDom (scanItems o none
+        ((entries.filter fun e => e.kind = .file ∨ e.kind = .linkFile).map
+          fun e => ⟨dirPrefix path, e.name⟩) [] [])) :
+    ∃ seqs files, findSequencesOnDisk (some entries) path o = .ok (seqs ++ files) ∧
+                  Cpp.scan (some entries) path o = .ok (files ++ seqs) := by
+  obtain ⟨gs, cs, files, hgo, hcpp, hrel, hinv⟩ :=
+    CppScan.scan_sim o (dirPrefix path) (Or.inr hroot) entries [] [] [] hnd hsingle .nil
+      (fun _ h => by cases h)
+  have hd : ∀ g ∈ gs, CppScan.BucketDom g := by rw [hgo] at hdom; exact hdom
+  have hb := CppScan.buckets_out o.style (dirPrefix path) (Or.inr hroot) gs cs hrel hinv hd
+  have hany : (entries.any fun e => e.kind = .dangling) = false := by
+    rw [List.any_eq_false]
+    intro e he
+    simpa using hnd e he
+  refine ⟨(gs.map (bucketSeqs o.style)).flatten, files, ?_, ?_⟩
+  · unfold findSequencesOnDisk scanDir
+    simp only [hany, Bool.false_eq_true, if_false]
+    unfold findInItems
+    rw [hgo]
+    cases hs : o.single
+    · have := CppScan.scanItems_files o hs _ _ _ _ _ hgo
+      subst this
+      rfl
+    · rfl
+  · unfold Cpp.scan
+    simp only [hpath, hcpp, hb]
+
+/-- the hypotheses of `C19_scan` are satisfiable (a directory with a three-frame sequence, a
+    frame-less file, a hidden file and a sub-directory, single files wanted), and on it the two
+    scans give what the theorem says -/
+def exOpts : ListOpts := ⟨true, false, .hash4⟩
+def exDir : List Entry := [⟨"a.0001.exr".toList, .file⟩, ⟨"sub".toList, .dir⟩,
+  ⟨"notes.txt".toList, .file⟩, ⟨".hid.7.x".toList, .file⟩, ⟨"a.0003.exr".toList, .linkFile⟩,
+  ⟨"a.0002.exr".toList, .file⟩]
+
+example :
+    Cpp.rootOf "/T/d".toList = dirPrefix "/T/d".toList ∧
+    isSuffixOf ['/'] (dirPrefix "/T/d".toList) = true ∧
+    (∀ e ∈ exDir, e.kind ≠ .dangling) ∧
+    (∀ e ∈ exDir, CppScan.kept e = true →
+        (exOpts.hidden = true ∨ isPrefixOf ['.'] e.name = false) →
+        CppScan.SingleOk exOpts (dirPrefix "/T/d".toList) e.name) ∧
+    CppScan.BucketsDom (scanItems exOpts none
+        ((exDir.filter fun e => e.kind = .file ∨ e.kind = .linkFile).map
+          fun e => ⟨dirPrefix "/T/d".toList, e.name⟩) [] []) := by
+  decide +kernel
+
+example :
+    (match Cpp.scan (some exDir) "/T/d".toList exOpts with
+      | .ok l => l.map (·.str) | .error _ => []) =
+      ["/T/d/notes.txt".toList, "/T/d/a.1-3#.exr".toList] ∧
+    (match findSequencesOnDisk (some exDir) "/T/d".toList exOpts with
+      | .ok l => l.map (·.str) | .error _ => []) =
+      ["/T/d/a.1-3#.exr".toList, "/T/d/notes.txt".toList] := by
+  decide +kernel
 
 /-- outside the domain the two really differ: a range that parses but denotes no frame is a
     valid empty frame set in Go and an invalid FrameSet in the port (why the property excludes
